@@ -1,1 +1,28 @@
-import LapyVerif.Model.Curvature
+import LapyVerif.Props.C17
+/- axiom audit of C17 -/
+#print axioms LapyVerif.Props.C17.argsort3_eq
+#print axioms LapyVerif.Props.C17.argsort3_perm
+#print axioms LapyVerif.Props.C17.argsort3_stable
+#print axioms LapyVerif.Props.C17.argsort3_indices
+#print axioms LapyVerif.Props.C17.post_eq
+#print axioms LapyVerif.Props.C17.frame_post
+#print axioms LapyVerif.Props.C17.frame_post_pairing
+#print axioms LapyVerif.Props.C17.frame_post_oriented
+#print axioms LapyVerif.Props.C17.frame_post_degenerate
+#print axioms LapyVerif.Props.C17.curvTria_frame
+#print axioms LapyVerif.Props.C17.curvTria_feeds_aniso
+#print axioms LapyVerif.Props.C17.aniso_local_form
+#print axioms LapyVerif.Props.C17.iso_local_form
+#print axioms LapyVerif.Props.C17.aniso_local_symm
+#print axioms LapyVerif.Props.C17.aniso_const_zero
+#print axioms LapyVerif.Props.C17.aniso_psd
+#print axioms LapyVerif.Props.C17.aniso_le_iso
+#print axioms LapyVerif.Props.C17.aniso_one_eq_iso
+#print axioms LapyVerif.Props.C17.stiffAniso_form
+#print axioms LapyVerif.Props.C17.stiffAniso_symm
+#print axioms LapyVerif.Props.C17.stiffAniso_entry_symm
+#print axioms LapyVerif.Props.C17.stiffAniso_const_zero
+#print axioms LapyVerif.Props.C17.stiffAniso_psd
+#print axioms LapyVerif.Props.C17.stiffAniso_le_iso
+#print axioms LapyVerif.Props.C17.stiffAniso_one_eq_iso
+#print axioms LapyVerif.Props.C17.exp_weight_mem
